@@ -130,6 +130,7 @@ class Evaluator(object):
         self.module = module
         self.cls = None           # class of the function being evaluated (set by run)
         self.inline_depth = INLINE_DEPTH
+        self.local_defs = {}      # nested function definitions seen so far (name -> FunctionDef)
         self.selfname = selfname
         self.call_hook = call_hook
         self.noreturn = set(noreturn)
@@ -434,7 +435,16 @@ class Evaluator(object):
         owner = fdef = None
         bound = False
         parts = fn.split(".")
-        if parts[0] == self.selfname and len(parts) == 2 and self.cls is not None:
+        closure = None
+        if len(parts) == 1 and parts[0] in self.local_defs and parts[0] not in path.env:
+            cand = self.local_defs[parts[0]]
+            if not any(isinstance(n_, (ast.Nonlocal, ast.Global)) for n_ in ast.walk(cand)) and not cand.args.vararg and not cand.args.kwarg:
+                fdef, callee_module = cand, self.module
+                closure = dict(path.env)          # a closure reads the enclosing variables as they are at the time of the call
+                owner = self.cls
+        if fdef is not None:
+            pass
+        elif parts[0] == self.selfname and len(parts) == 2 and self.cls is not None:
             hit = prog.lookup_method(self.cls, parts[1])
             if hit is not None and parts[1] not in known["classes"].get(hit[0].qual, [parts[1]]):
                 owner, fdef, bound = hit[0], hit[1], True
@@ -447,7 +457,8 @@ class Evaluator(object):
                 hit = prog.lookup_method(c, parts[-1])
                 if hit is not None and parts[-1] not in known["classes"].get(hit[0].qual, [parts[-1]]):
                     owner, fdef = hit
-        callee_module = owner.module if owner is not None else None
+        if closure is None:
+            callee_module = owner.module if owner is not None else None
         if fdef is None and rname:
             modname, _, fname = rname.rpartition(".")
             m2 = prog.modules.get(modname)
@@ -465,7 +476,7 @@ class Evaluator(object):
         params = [a.arg for a in fdef.args.args]
         if params and params[0] in ("self", "cls") and "staticmethod" not in decos:
             params = params[1:]
-        env = {k: v for k, v in path.env.items() if k.startswith(self.selfname + ".")}
+        env = {k: v for k, v in path.env.items() if k.startswith(self.selfname + ".")} if closure is None else closure
         for p_, a in zip(params, args):
             env[p_] = a
         for k, v in kwargs.items():
@@ -476,6 +487,7 @@ class Evaluator(object):
         sub.loop_mode, sub.merge_ifs, sub.record = self.loop_mode, True, self.record
         sub.events, sub.loop_stack, sub.iter_tag, sub.no_thread_prefixes = self.events, self.loop_stack, self.iter_tag, self.no_thread_prefixes
         sub.loops = self.loops
+        sub.local_defs = self.local_defs
         for p_, d in zip(params[len(params) - len(fdef.args.defaults):], fdef.args.defaults):
             if p_ not in env:
                 env[p_] = sub.ev(d, Path({}, []))
@@ -811,10 +823,14 @@ class Evaluator(object):
             return self.exec_block(st.body, [path])
         if isinstance(st, ast.For) and self.loop_mode in ("body_once", "unroll2"):
             it = self.ev(st.iter, path)
-            if isinstance(it, list) and it and len(it) <= 6 and all(isinstance(x, Rat) for x in it) and isinstance(st.target, ast.Name) and not st.orelse:
-                # loop over a python list of known values (typically the two results of an unrolled filling loop): element by
-                # element; an in-place store into the loop variable is a store into the list element
-                self.loops.append({"node": st, "iter": form.apply("pylist", [tuple(it)]), "path": path, "conds": list(path.conds), "depth": len(self.loop_stack)})
+            rows = isinstance(it, list) and it and len(it) <= 8 and isinstance(st.target, ast.Tuple) and not st.orelse \
+                and all(isinstance(e_, ast.Name) for e_ in st.target.elts) \
+                and all(isinstance(x, list) and len(x) == len(st.target.elts) and all(isinstance(y, Rat) for y in x) for x in it)
+            if rows or (isinstance(it, list) and it and len(it) <= 6 and all(isinstance(x, Rat) for x in it) and isinstance(st.target, ast.Name) and not st.orelse):
+                # loop over a python list of known values (typically the two results of an unrolled filling loop, or a literal table of
+                # (name, value) rows): element by element; an in-place store into the loop variable is a store into the list element
+                itv = form.apply("pylist", [tuple(form.apply("pylist", [tuple(x)]) for x in it)]) if rows else form.apply("pylist", [tuple(it)])
+                self.loops.append({"node": st, "iter": itv, "path": path, "conds": list(path.conds), "depth": len(self.loop_stack)})
                 self.loop_stack.append(st)
                 live, done = [path], []
                 lname = dotted(st.iter)
@@ -824,7 +840,7 @@ class Evaluator(object):
                     for p in live:
                         self.assign(st.target, x, p, st)
                         for q in self.exec_block(st.body, [p]):
-                            if lname is not None and isinstance(q.env.get(lname), list) and k < len(q.env[lname]) and isinstance(q.env.get(st.target.id), Rat):
+                            if not rows and lname is not None and isinstance(q.env.get(lname), list) and k < len(q.env[lname]) and isinstance(q.env.get(st.target.id), Rat):
                                 cur = q.env[st.target.id]
                                 if cur.as_atom("setitem") is not None and cur.key() != x.key():
                                     lst = list(q.env[lname])
@@ -911,6 +927,8 @@ class Evaluator(object):
                 live = self.exec_block(st.finalbody, live)
             return live
         if isinstance(st, (ast.FunctionDef, ast.ClassDef)):
+            if isinstance(st, ast.FunctionDef):
+                self.local_defs[st.name] = st         # a nested helper: calls to it are evaluated in place (closure over the caller's variables)
             return [path]
         raise Undecided("statement %s" % type(st).__name__)
 
